@@ -257,6 +257,45 @@ def exit_clears(run, F, E):
         run.ob('C08.e', 'PlanDataT::clearTaskStatus(id) clears both bits of id, unconditionally', ok, where=fn.pat, detail=calls, key='clearTaskStatus does not clear both bits')
 
 
+def status_reports(run, F, E, rule='C08.h'):
+    """what a status report does, on effect summaries: succeed(id) sets exactly the success bit of id (fail: the failure bit), the
+    control variants also record the result for the current cycle, the parameterless control variant reports for the calling state
+    (the scoped origin), nothing else is touched"""
+    from lint import symeval
+    from lint.symeval import Sym, ObjRef
+
+    def mk():
+        pd = ObjRef({'tasksSuccesses': ObjRef({}, ['_storage'], 'succ'), 'tasksFailures': ObjRef({}, ['_storage'], 'fail')}, [])
+        core = ObjRef({'planData': pd, 'logger': 0, 'registry': ObjRef({'active': Sym('active'), 'requested': Sym('requested')}, [])}, [])
+        ev = symeval.Eval(F, {'_taskStatus': ObjRef({'result': Sym('r')}, []), '_core': core, '_originId': Sym('origin')}, [])
+        ev.primitive = lambda g, obj, args: g.tkey == 'ffsm2::detail::BitArrayT'
+        return ev
+    for tk in ('FullControlBaseT', 'R_'):
+        for m, bits, res in (('succeed', 'tasksSuccesses', 1), ('fail', 'tasksFailures', 2)):
+            for fn in F.find(tk, m):
+                ev = mk()
+                try:
+                    sm = ev.run(fn, [Sym('id')] if fn.params else [])
+                except symeval.Refuse as ex:
+                    raise AnalysisBroken('%s::%s is outside the offset-domain fragment: %s' % (tk, m, ex))
+                evs = sm.events
+                ok = len(evs) == 1 and evs[0][0] == 'BitArrayT::set' and evs[0][1].endswith('planData.' + bits) and len(evs[0][2]) == 1 and not sm.stores
+                if ok:
+                    a = evs[0][2][0]
+                    if fn.params:
+                        ok = a == Sym('id')
+                    elif fn.d.get('ftargs'):
+                        ok = isinstance(a, int) and a != 255          # succeed<TState>(): that state's id (ids are C14's)
+                    else:
+                        ok = a == Sym('origin')                       # succeed(): the calling state
+                want = res if tk == 'FullControlBaseT' else Sym('r')
+                ok = ok and sm.fields['_taskStatus'].fields.get('result') == want
+                run.ob(rule, '%s::%s%s sets exactly the %s bit of the reported state%s' % (tk, m, '(id)' if fn.params else '()', 'success' if res == 1 else 'failure',
+                                                                                             ' and records the result for this cycle' if tk == 'FullControlBaseT' else ''),
+                       ok, where=fn.pat, detail=None if ok else {'events': repr(evs), 'result': repr(sm.fields['_taskStatus'].fields.get('result'))},
+                       key='%s::%s does not report exactly its own status' % (tk, m))
+
+
 def sibling_rule(run, F, E):
     """the two specialisations perform the same sequence of library calls (resolved callees in dominance order, with their control
     dependences), apart from how the payload is handed on -- compared on the call structure, not on the text of the bodies, so that a
@@ -311,6 +350,7 @@ def run(run):
             status_rules(run, F, E)
             exit_clears(run, F, E)
             sibling_rule(run, F, E)
+            status_reports(run, F, E)
             # C08.c: the scan's activity predicate
             c06.check_is_active(run, F)
             facts.drop(F)
